@@ -323,11 +323,13 @@ pub fn scenario(i: usize) -> Scenario {
       // decides nothing - `^1.0` is resolved where the visit order meets it
       let mut s = base(
         "two-packages-in-one-pass-sharing-a-third-through-overlapping-requirements",
-        &[("https://x/root.ts", "import \"jsr:@s/p@1\";\nimport \"jsr:@s/q@1\";\n")],
+        &[("https://x/root.ts", "import \"jsr:@s/p@1\";\nimport \"jsr:@s/q@1\";\nimport \"./w.ts\";\n")],
         &["https://x/root.ts"],
       );
       s.install = Box::new(|l| {
-        l.add_text("https://x/root.ts", "import \"jsr:@s/p@1\";\nimport \"jsr:@s/q@1\";\n");
+        l.add_text("https://x/root.ts", "import \"jsr:@s/p@1\";\nimport \"jsr:@s/q@1\";\nimport \"./w.ts\";\n");
+        // a plain module keeps the queue busy while the packages' metadata arrives in either order
+        l.add_text("https://x/w.ts", "export const w = 1;\n");
         RegPackage { name: "@s/p".into(), versions: vec![RegVersion::new("1.0.0", &[("/mod.ts", "import \"jsr:@s/a@^1.0\";\nimport \"./gone.ts\";\nexport const p = 1;\n")])], raw_meta: None }.install(l);
         RegPackage { name: "@s/q".into(), versions: vec![RegVersion::new("1.0.0", &[("/mod.ts", "import \"jsr:@s/a@1.0.0\";\nimport \"https://jsr.io/@s/p/1.0.0/gone.ts\";\nexport const q = 1;\n")])], raw_meta: None }.install(l);
         pkg_a().install(l);
